@@ -203,10 +203,19 @@ class IntegrateSubset(Contract):
                                                     band(c.and_(s_hi >= 0, s_hi < n - 1, XA[s_hi] <= hi, hi <= XA[s_hi + 1]), ys[L - 1] == line(s_hi, hi))]}
 
 
-def make_filter(c, prefix='flt'):
+def in_hz(c, q):
+    """the frequencies of a Quantity array as an array of numbers in Hz (the unit the clauses are stated in)"""
+    raw = c.A(q)
+    k = q.unit.scale / units.BASE['Hz'].scale
+    if not isinstance(k, Sc) and k == 1:
+        return raw
+    return c.A(c.defined_array((raw.n,), lambda idx: raw[idx[0]] * k))
+
+
+def make_filter(c, prefix='flt', nu_unit='Hz'):
     n = c.int(prefix + '_n')
     c.assume(n >= 2)
-    nu = Quantity(c.array(prefix + '_nu', (n,)), units.BASE['Hz'])
+    nu = Quantity(c.array(prefix + '_nu', (n,)), units.BASE[nu_unit])
     cw = c.real(prefix + '_cw')
     # object invariant: `_wavelength` is only ever stored by the validating setter (validate_scalar, 'strictly-positive')
     c.assume(cw > 0)
@@ -219,16 +228,17 @@ class Normalize(Contract):
     name = FILTER + '.normalize'
     properties = ('C06',)
     modifies = ('self._r',)
+    variants = ('Hz', 'GHz')            # (the unit the filter's frequencies are held in)
 
-    def setup(self, c):
-        return dict(self=make_filter(c))
+    def setup(self, c, variant):
+        return dict(self=make_filter(c, nu_unit=variant))
 
     def requires(self, c, a):
-        nu, r = c.A(c.attr(a.self, '_nu')), c.A(c.attr(a.self, '_r'))
+        nu, r = in_hz(c, c.attr(a.self, '_nu')), c.A(c.attr(a.self, '_r'))
         return {'integral_nonzero': bnot(trapezium(c, nu, r) == 0)}
 
     def ensures(self, c, a, result, old):
-        nu, r0 = old.A(old.attr(a.self, '_nu')), old.A(old.attr(a.self, '_r'))
+        nu, r0 = in_hz(old, old.attr(a.self, '_nu')), old.A(old.attr(a.self, '_r'))
         r1 = c.A(c.attr(a.self, '_r'))
         I = trapezium(c, nu, r0)
         return {'unit_integral': [compare('==', r1.n, r0.n), c.forall(r0.n, lambda k: r1[k] == r0[k] / c.abs(I), 'R/|I|')],
@@ -243,21 +253,23 @@ class Rebin(Contract):
     filter's own frequency range [min nu, max nu], for either storage order of either grid."""
     name = FILTER + '.rebin'
     properties = ('C06', 'C07')
+    variants = ('Hz<-Hz', 'GHz<-Hz', 'Hz<-GHz')      # (unit of the filter's frequencies <- unit of the new grid)
 
-    def setup(self, c):
+    def setup(self, c, variant):
         m = c.int('n_new')
         c.assume(m >= 1)
-        return dict(self=make_filter(c), nu_new=Quantity(c.array('nu_new', (m,)), units.BASE['Hz']))
+        fu, nu_ = variant.split('<-')
+        return dict(self=make_filter(c, nu_unit=fu), nu_new=Quantity(c.array('nu_new', (m,)), units.BASE[nu_]))
 
     def requires(self, c, a):
-        nu = c.A(c.attr(a.self, '_nu'))
-        new = c.A(a.nu_new)
+        nu = in_hz(c, c.attr(a.self, '_nu'))
+        new = in_hz(c, a.nu_new)
         return {'filter_monotone': strictly_monotone(c, nu),
                 'positive': [c.forall(nu.n, lambda k: nu[k] > 0, 'nu>0'), c.forall(new.n, lambda k: new[k] > 0, 'nu_new>0')],
                 'lengths': compare('==', nu.n, c.A(c.attr(a.self, '_r')).n)}
 
     def lemmas(self, c, a):
-        nu = c.A(c.attr(a.self, '_nu'))
+        nu = in_hz(c, c.attr(a.self, '_nu'))
         n = nu.n
         f = c.forall(n, lambda k: band(smin(nu[0], nu[n - 1]) <= nu[k], nu[k] <= smax(nu[0], nu[n - 1])), 'monotone => range is [first,last]')
         return {'range_of_monotone': (f, f)}
@@ -271,8 +283,8 @@ class Rebin(Contract):
         return res
 
     def ensures(self, c, a, result, old):
-        nu, r = c.A(c.attr(a.self, '_nu')), c.A(c.attr(a.self, '_r'))
-        new = c.A(a.nu_new)
+        nu, r = in_hz(c, c.attr(a.self, '_nu')), c.A(c.attr(a.self, '_r'))
+        new = in_hz(c, a.nu_new)
         m = new.n
         R = c.A(c.attr(result, '_r'))
         fmin, fmax = c.Min(nu), c.Max(nu)        # the filter's own frequency range
